@@ -49,7 +49,7 @@ def _fail_first_then_abort(x):
 def sc_map(mp):
     ctx = mp.get_context("fork")
     pool = ctx.Pool(processes=3, maxtasksperchild=1)
-    r = pool.map_async(_square, range(7), chunksize=1).get(timeout=30)
+    r = pool.map_async(_square, range(7), chunksize=1).get(timeout=300)
     pool.close()
     pool.join()
     return r
@@ -58,7 +58,7 @@ def sc_map(mp):
 def sc_map_chunks(mp):
     ctx = mp.get_context("fork")
     pool = ctx.Pool(processes=2)
-    r = pool.map_async(_square, range(9), chunksize=4).get(timeout=30)
+    r = pool.map_async(_square, range(9), chunksize=4).get(timeout=300)
     pool.close()
     pool.join()
     return r
@@ -68,7 +68,7 @@ def sc_exception_first_wins(mp):
     ctx = mp.get_context("fork")
     pool = ctx.Pool(processes=2, maxtasksperchild=1)
     try:
-        pool.map_async(_fail_on_2, range(5), chunksize=1).get(timeout=30)
+        pool.map_async(_fail_on_2, range(5), chunksize=1).get(timeout=300)
     finally:
         pool.close()
         pool.join()
@@ -78,7 +78,7 @@ def sc_barrier(mp):
     ctx = mp.get_context("fork")
     b = ctx.Barrier(parties=3)
     pool = ctx.Pool(processes=3, maxtasksperchild=1, initializer=_init, initargs=(b,))
-    r = pool.map_async(_wait_then_square, range(3), chunksize=1).get(timeout=30)
+    r = pool.map_async(_wait_then_square, range(3), chunksize=1).get(timeout=300)
     pool.close()
     pool.join()
     return r
@@ -89,7 +89,7 @@ def sc_barrier_abort(mp):
     b = ctx.Barrier(parties=3)
     pool = ctx.Pool(processes=3, maxtasksperchild=1, initializer=_init, initargs=(b,))
     try:
-        pool.map_async(_fail_first_then_abort, range(3), chunksize=1).get(timeout=30)
+        pool.map_async(_fail_first_then_abort, range(3), chunksize=1).get(timeout=300)
     finally:
         pool.close()
         pool.join()
@@ -109,7 +109,7 @@ def sc_timeout(mp):
 def sc_empty(mp):
     ctx = mp.get_context("fork")
     pool = ctx.Pool(processes=2)
-    r = pool.map_async(_square, [], chunksize=1).get(timeout=30)
+    r = pool.map_async(_square, [], chunksize=1).get(timeout=300)
     pool.close()
     pool.join()
     return r
